@@ -609,6 +609,7 @@ Qed.
 Lemma load_dump_keeps e cl s : nkeeps0 (nd s) (nd (load_dump e cl s)).
 Proof.
   unfold load_dump. destruct (stored (sr (nd s))) as [[sn|]|] eqn:Est; try apply nkeeps0_refl.
+  destruct (cl && _); [apply nkeeps_0, nkeeps_los; reflexivity|].
   destruct (self_ver (nd s) <? s_ver sn); [apply nkeeps0_refl|].
   set (s1 := upd (fun n => n <| hist := s_hist sn |> <| enabled_ver := s_ver sn |>) s).
   set (s2 := if cl then s1 else _).
@@ -661,6 +662,13 @@ Lemma node_wf_same a b :
   node_wf a -> consec (log b) -> others b = others a -> sr_wf (sr b) -> node_wf b.
 Proof. intros (H1 & H2 & H3) L O W. split; [exact L|]. split; [now rewrite O|exact W]. Qed.
 
+Lemma ssorted_cluster_before n res cl : ssorted cl -> ssorted (cluster_before n res cl).
+Proof.
+  unfold cluster_before. revert cl. induction res as [|en res IH]; intros cl H; cbn [fold_left]; [exact H|].
+  apply IH. destruct (membership_of (ecmd en)) as [[a x]|]; [|exact H].
+  destruct (self_is x n); [exact H|]. destruct a; [now apply ssorted_sdel|now apply ssorted_sadd].
+Qed.
+
 Lemma try_compact_wf e s : node_wf (nd s) -> node_wf (nd (try_compact e s)).
 Proof.
   intros Hwf. pose proof Hwf as (H1 & H2 & H3). unfold try_compact.
@@ -687,7 +695,7 @@ Proof.
   apply (sr_wf_sub (sr (nd s2))); auto. cbn. intros b Hb. right. inversion Hb; subst b. cbn. split; cbn.
   - pose proof (get_entries_consec (log (nd s2)) (Some (applied (nd s2) - 1)) (Some 2) None L2) as Hc.
     rewrite Eg in Hc. destruct Hc as [Hc _]. exact Hc.
-  - rewrite O2. destruct (self (nd s2)); [now apply ssorted_sadd|exact H2].
+  - apply ssorted_cluster_before. rewrite O2. destruct (self (nd s2)); [now apply ssorted_sadd|exact H2].
 Qed.
 
 Lemma try_compact_nonempty e s :
@@ -915,12 +923,15 @@ Proof.
   - pose proof (set_transmission_keeps p s) as G.
     assert (Hp : match p with SData b _ _ _ _ => blob_wf b | SNone => True end) by (destruct p; exact Hm).
     specialize (G Hp). destruct (set_transmission p s) as [s2 dn]. cbn [fst] in G.
-    destruct (dn && _).
+    destruct (dn && _); [|destruct dn].
     + eapply nkeeps0_trans; [exact G|].
       match goal with |- nkeeps0 _ (nd ?X) =>
         assert (EE : los (nd X) = los (nd (load_dump e true s2)))
           by (rewrite (fr_ae_commit los) by reflexivity; now rewrite nd_send_next_idx) end.
       eapply nkeeps0_trans; [apply (load_dump_keeps e true s2)|apply nkeeps_0, nkeeps_los; exact EE].
+    + eapply nkeeps0_trans; [exact G|].
+      eapply nkeeps0_trans; [apply (load_dump_keeps e true s2)|].
+      apply nkeeps_0, nkeeps_los. apply (fr_ae_commit los); reflexivity.
     + eapply nkeeps0_trans; [exact G|]. apply nkeeps_0, nkeeps_los. apply (fr_ae_commit los); reflexivity.
 Qed.
 
